@@ -186,7 +186,7 @@ def sig(items):
 def run(ctx, model_ok):
     rng = ctx.rng
     thorough = ctx.tier == "thorough"
-    maxlen = 3 if thorough else 2
+    maxlen = 3 if thorough else 2          # exhaustive; thorough adds every string of 4 items below
     checks = []     # (stream, nontrivial key, src, expected stdout, expected status)
     for n in range(0, maxlen + 1):
         for items in itertools.product(ALPHABET, repeat=n):
@@ -195,6 +195,10 @@ def run(ctx, model_ok):
             checks.append(("plain", ("plain", sig(items), n), s, o, "0"))
             s, o = plain_fail_script(body)
             checks.append(("plain-out-of-range", ("oob", sig(items)), s, o, "103"))
+    if thorough:
+        for items in itertools.product(ALPHABET, repeat=4):
+            s, o = plain_script("".join(items))
+            checks.append(("plain4", ("plain", sig(items), 4), s, o, "0"))
     for body in ["a\\rb", "\\r\\n", "\\x00\\x7f", "\\x0a|\\x0A", "tab\there", "line\nbreak é\n€", "#not a comment", "; x", "\\x5c\\x22\\x24"]:
         s, o = plain_script(body)
         checks.append(("plain-extra", ("plain-extra", body), s, o, "0"))
@@ -210,7 +214,7 @@ def run(ctx, model_ok):
             sl = [rng.choice(SLOTS) for _ in range(k)]
             s, o = interp_script(ps, sl)
             checks.append((f"interp{k}", (f"interp{k}", sig([p for p in ps if p]), tuple(sorted({x[0] for x in sl}))), s, o, "0"))
-    for _ in range(30000 if thorough else 1500):
+    for _ in range(60000 if thorough else 1500):
         k = rng.randrange(1, 4)
         ps = tuple(rng.choice(pieces1 + pieces2) for _ in range(k + 1))
         sl = [rng.choice(SLOTS) for _ in range(k)]
